@@ -174,6 +174,21 @@ TEXT["C15"] = dict(ref="DESIGN.md 4 C15", technique="TLC model checking of the r
     "without keep-alive; in-process publishers also hand over payloads no serializer can encode (dropped whole for network receivers only). What a departing network session still receives in the step it leaves is compared on its session-control messages only. "
     "16 MiB frames only in the thorough tier.")
 
+# additions made while the generator grew (rounds 3 and 4 of the seeded changes)
+_MORE = {
+    "C01": " Further bags: payload passthru mode (publishers with and without the feature), wamp.session.modify_details changing the attributes the filters read, sessions that announce only some roles.",
+    "C04": " Besides the hostile messages: ordinary come-and-go traffic of sessions that announce only some roles (churn bag), because 'whenever they disconnect' is part of the statement.",
+    "C05": " Realms with event history (subscriptions that exist without subscribers), progressive call invocations and payload passthru violations (sessions ended by the router) are among the scenarios.",
+    "C07": " Scripted sequences: a subscriber stops reading, its queue fills, it is killed through the meta API (killstall); a caller stops reading while its callee answers (retryseq); kill-mode cancel towards a callee whose queue is full (stallseq).",
+    "C08": " Mixed bursts contain a caller looping on the procedure another session keeps registering and unregistering (REGISTERED before the first INVOCATION, none after UNREGISTERED under every interleaving the scheduler produces) and bursts towards reading sessions with queues of 1-2 messages (what arrives is in order).",
+    "C14": " The MessagePack handle is re-created in the middle of the run (InitMsgpackHandle, the documented way to register extensions late); dicts must come back with string keys.",
+    "C17": " Scenarios in which the scripted router stops reading while invocation handlers run (Cli!DeafFx: what the client sends is stuck in the send until it ends) and in which results keep streaming for a cancelled call at intervals shorter than the response timeout.",
+    "C18": " Realms with event history watched through the subscription meta events (histmeta bag); in-process callers scribble over every meta result they receive (deep poisoning), which must not change what the router holds; wamp.session.modify_details.",
+    "C20": " Limit is combined with topic / before / until filters that reject some of the newest entries.",
+}
+for _k, _v in _MORE.items():
+    TEXT[_k]["level"] = TEXT[_k]["level"] + _v
+
 NOT_APPLICABLE = {}
 
 ENGINES = [
